@@ -143,8 +143,12 @@ func runC15(e *Engine, r *Report, tier string) {
 						return true
 					}
 					for _, f := range e.calleesOf(c) {
-						// helper that itself always refunds (failUnsupportedProposal)
-						if f.Name() == "failUnsupportedProposal" && n == "RefundAndDeleteDeposits" {
+						// a helper of the package that itself refunds on every success path
+						if n == "RefundAndDeleteDeposits" && f.Parent() == nil && strings.HasSuffix(fnPkgPath(f), "x/gov") && callsNamed(f, "RefundAndDeleteDeposits") &&
+							MustPassThrough(f, nil, func(i2 ssa.Instruction) bool {
+								c2, ok := i2.(ssa.CallInstruction)
+								return ok && callName(c2) == "RefundAndDeleteDeposits"
+							}) == nil {
 							return true
 						}
 					}
@@ -205,7 +209,7 @@ func runC15(e *Engine, r *Report, tier string) {
 		}
 		// failUnsupportedProposal refunds
 		for _, fn := range e.Funcs {
-			if fn.Name() == "failUnsupportedProposal" && strings.HasSuffix(fnPkgPath(fn), "x/gov") {
+			if fn.Parent() == nil && fn.Name() != "EndBlocker" && strings.HasSuffix(fnPkgPath(fn), "x/gov") && callsNamed(fn, "RefundAndDeleteDeposits") {
 				off := MustPassThrough(fn, nil, func(i ssa.Instruction) bool {
 					c, ok := i.(ssa.CallInstruction)
 					return ok && callName(c) == "RefundAndDeleteDeposits"
@@ -235,7 +239,7 @@ func runC15(e *Engine, r *Report, tier string) {
 				}
 				if ci.Call != nil && callName(ci.Call) == "IsAllGTE" && ci.Op == "call:IsAllGTE" {
 					a := callArgs(ci.Call)
-					if len(a) == 2 && e.rootsAtCall(a[1], "GetMinDepositAmountFromProposalMsgs") {
+					if pm := e.perTypeMinimumFn(gk); len(a) == 2 && pm != nil && e.rootsAtCall(a[1], pm.Name()) {
 						tot := e.Slice(a[0], SliceOpts{MaxDepth: 8, ThroughCalls: true}, func(x ssa.Value) Verdict {
 							if n, _, ok := fieldName(x); ok && n == "TotalDeposit" {
 								return Accept
@@ -257,7 +261,7 @@ func runC15(e *Engine, r *Report, tier string) {
 			r.Check(okStatus, "R3", k+" status", e.InstrPos(act), "activation only from the deposit period", "voting period can be (re)activated for a proposal that is not in its deposit period")
 		}
 	}
-	md := e.Method(gk, "Keeper", "GetMinDepositAmountFromProposalMsgs")
+	md := e.perTypeMinimumFn(gk)
 	if md == nil {
 		r.Fail("R3", "per-type minimum", "", "UNRESOLVED-ANCHOR")
 	} else {
@@ -393,4 +397,27 @@ func runC15(e *Engine, r *Report, tier string) {
 			}
 		}
 	}
+}
+
+// perTypeMinimumFn: the gov keeper method computing the minimum deposit applicable to a proposal's message type —
+// by name, or (renamed) the method of the package taking the default sdk.Coins and the proposal and returning sdk.Coins.
+func (e *Engine) perTypeMinimumFn(gk string) *ssa.Function {
+	if md := e.Method(gk, "Keeper", "GetMinDepositAmountFromProposalMsgs"); md != nil {
+		return md
+	}
+	return e.findFn(func(f *ssa.Function) bool {
+		if !strings.HasSuffix(fnPkgPath(f), gk) || f.Signature.Recv() == nil || f.Signature.Results().Len() != 2 || !isCoinsType(f.Signature.Results().At(0).Type()) {
+			return false
+		}
+		hasCoins, hasProp := false, false
+		for _, p := range f.Params {
+			if isCoinsType(p.Type()) {
+				hasCoins = true
+			}
+			if strings.HasSuffix(p.Type().String(), "v1.Proposal") {
+				hasProp = true
+			}
+		}
+		return hasCoins && hasProp
+	})
 }
